@@ -549,4 +549,17 @@ theorem seq_heap_refines_world (n : Nat) (ops : List Tromp.Op) (hb : ∀ op ∈ 
   have := seqHeapRun_rep (n := n) (w := {}) ⟨[], rfl⟩ (seq_heap_init n) ops hb
   rwa [seqHeapRun_world] at this
 
+/-- what `for (auto& e : matchers)` sees — in `sequence_type::is_completed`, `cost`, `retire_until`, `validate_match`, the
+    destructor — at any point of any history: walking `next` from the list object of sequence `s` yields the handles of the World's
+    pending list of `s`, in registration order; walking `prev` yields them reversed. -/
+theorem pending_walkable (n : Nat) (ops : List Tromp.Op) (hb : ∀ op ∈ ops, ∀ s ∈ registers op, s < n) (s : Nat) (hs : s < n) :
+    let hp := (seqHeapRun n ({}, Heap.init) ops).2
+    let l := ((World.run {} ops).1.pendingOf s).map (fun o => SAddr.handle o s)
+    toList hp (SAddr.pending s) (l.length + 1) = l ∧ toListBack hp (SAddr.pending s) (l.length + 1) = l.reverse := by
+  have R := seq_heap_refines_world n ops hb
+  have hr := R.rings (SAddr.pending s) (pending_mem_heads _ hs)
+  have h1 := toList_ring hr 0
+  have h2 := toListBack_ring hr 0
+  exact ⟨by simpa [seqRingOf] using h1, by simpa [seqRingOf] using h2⟩
+
 end Tromp.C14Ring
